@@ -320,6 +320,17 @@ Print Assumptions C09_delete_subject_and_entry_refuted.
 
 (* ---- persistence: index.json, AutoSaveIndex, SaveIndex, a new Store on the directory ---- *)
 
+(* The order of effects the persistence model relies on, read off the call sequences that the
+   translator regenerates from Store.GC and Store.delete on every run (Generated/GC09.v):
+   GC writes index.json before it removes the first blob and tests the context before every
+   removal; delete() writes index.json before it unlinks the blob.  The model's [pstep] is
+   configured by these three booleans, the theorems below use them as lemmas: a reordering of
+   the Go source changes the model and breaks the proofs. *)
+Theorem C09_effect_order :
+  gc_saves_before_sweep = true /\ gc_tests_ctx_before_remove = true /\ delete_saves_before_unlink = true.
+Proof. exact effect_order_final. Qed.
+Print Assumptions C09_effect_order.
+
 (* loadIndex after saveIndex gives back the reference map (minus stale tag-set entries) *)
 Theorem C09_index_load_save :
   forall ix e, refs_ok ix ->
